@@ -3,7 +3,7 @@ from .. import core
 from . import c04
 
 PAN = {"log", "enter", "panic-escape", "writer", "unhealthy", "crash", "probe"}
-HOOKS = ("none", "nothing", "status", "statusbody")
+HOOKS = ("none", "nothing", "status", "statusbody", "ok200")
 
 
 def run(chk):
@@ -13,7 +13,7 @@ def run(chk):
         "and inside the OnError handler's trigger path (E records an error so OnError runs)",
         "hooks: absent, does nothing, sets status, sets status and writes a body; every request is repeated once on the same router",
     ]
-    sc = ["N", "R", "P", "NP", "WP", "W", "PH", "PA", "EP"] + (["E", "NN"] if thorough else ["E"])
+    sc = ["N", "R", "P", "NP", "WP", "W", "PH", "PA", "EP", "SP"] + (["E", "NN"] if thorough else ["E"])
     c04.instance(chk, "panic", "all", 1, 4 if thorough else 3, sc, kinds=("route", "notfound", "notallowed"), only=PAN, hooks=HOOKS,
                  extra_invs=("DispatchOK",))
     c04.instance(chk, "panic-long", "odd", 20, 22 if not thorough else 40, ["P", "NP", "WP"], base="N", only=PAN, hooks=("none", "statusbody"),
